@@ -42,6 +42,12 @@ _c10.append(U('z2_elem', 'C10_elem.cpp', ['VP_KIND=3'], weight=1))
 for lo, hi in ((2, 3), (2, 5), (3, 5)):
     _c10.append(U('mfs_elem_%d_%d' % (lo, hi), 'C10_elem.cpp', ['VP_KIND=4', 'VP_LO=%d' % lo, 'VP_HI=%d' % hi], weight=4))
 _c10.append(U('mfs_shared_2_5', 'C10_elem.cpp', ['VP_KIND=5', 'VP_LO=2', 'VP_HI=5'], weight=4))
+for p in (2, 3, 7, 13): _c10.append(U('zp_ops_p%d' % p, 'C10_ops.cpp', ['VP_KIND=1', 'VP_P=%d' % p], weight=3))
+_c10.append(U('z2_ops', 'C10_ops.cpp', ['VP_KIND=2'], weight=1))
+for lo, hi in ((2, 3), (2, 5), (3, 5)): _c10.append(U('mfs_ops_%d_%d' % (lo, hi), 'C10_ops.cpp', ['VP_KIND=3', 'VP_LO=%d' % lo, 'VP_HI=%d' % hi], weight=5))
+for p in (2, 3, 5, 11): _c10.append(U('cohomology_fzp_p%d' % p, 'C10_ops.cpp', ['VP_KIND=4', 'VP_P=%d' % p], weight=2))
+_c10.append(U('refuse_nonprimes', 'C10_refuse.cpp', ['VP_PMAX=40'], weight=3))
+for p in (31, 251): _c10.append(U('zp_ops_p%d' % p, 'C10_ops.cpp', ['VP_KIND=1', 'VP_P=%d' % p], tiers=['thorough'], weight=6))
 for p in (31, 251): _c10.append(U('zp_elem_p%d' % p, 'C10_elem.cpp', ['VP_KIND=1', 'VP_P=%d' % p], tiers=['thorough'], weight=6))
 for lo, hi in ((2, 7), (3, 7), (5, 13)): _c10.append(U('mfs_elem_%d_%d' % (lo, hi), 'C10_elem.cpp', ['VP_KIND=4', 'VP_LO=%d' % lo, 'VP_HI=%d' % hi], tiers=['thorough'], weight=8))
 PROPS['C10'] = dict(
